@@ -343,6 +343,19 @@ func runC11(c *Ctx) {
 				eq = false
 			}
 		}
+		if !eq {
+			// second opinion with the own helpers (one constructor written through another) expanded
+			saved := cfg
+			cfg = deepCfg
+			ts, ss = sigSet(tf, texPkg.PkgPath, nil, nil), sigSet(sf, "bytes", nil, nil)
+			cfg = saved
+			eq = ts != nil && ss != nil && len(ts) == len(ss)
+			for k := range ts {
+				if !ss[k] {
+					eq = false
+				}
+			}
+		}
 		compared = append(compared, name)
 		c.check(eq, "C11.sibling", name, tf.Pos(), "equal to bytes."+name, "tex."+name+" differs from bytes."+name)
 	}
